@@ -15,4 +15,21 @@ var props = map[string]propCfg{
 		Modules: []string{"pkg/slice"},
 		Decided: []string{"functional postcondition of every function of package slice over the abstract view (len, element at i), inside its documented domain, for all lengths, all element types and all total callbacks; left-to-right callback order via ghost call traces"},
 	},
+	"C14": {
+		Modules: []string{"pkg/dict", "pkg/strings", "pkg/buf", "pkg/frt"},
+		Decided: []string{
+			"dict: finite-map contracts (Add overwrites one key and nothing else, TryFind/ContainsKey/Item read the map, Keys/Values/KVs enumerate each entry exactly once, ToDict keeps the last value per key; every other map unchanged)",
+			"strings: each wrapper equals the SMT-string definition of its Go counterpart with the pipeline argument order; Concat = join",
+			"buf: writes accumulate in order; frt: Pipe/IfElse/IfElseUnit/IfOnly call traces, tuple inverse laws, formatting helpers route to fmt in argument order, toS never panics",
+		},
+	},
+	"C10": {
+		Modules: []string{"pkg/frt"},
+		Decided: []string{
+			"OpEqual never panics and returns struct_eq (nil slice == empty slice, field-name capitalisation irrelevant), OpNotEqual is its negation - proved from the options actually passed to cmp.Equal against the ASSUMED contract of go-cmp (specs/externals.spec)",
+			"reflexivity, symmetry and transitivity are properties of the specification function struct_eq (axioms of the spec), carried over to OpEqual by result == struct_eq",
+		},
+		NotDecided: []string{"that go-cmp itself satisfies the assumed contract: validated only by the bounded differential run of the thorough tier (labelled bounded)"},
+		Bounded:    []func(*run){boundedOpEqual},
+	},
 }
